@@ -20,6 +20,7 @@ RULE = (
     "cyclic graph likewise; bookkeeping - required/optional/entry-point parameters pairwise disjoint, bind removes a "
     "name from required and unbind restores it. Non-trivial: >= 1 required input or entry point; distinct = "
     "(program shape, configuration)."
+    ' Graphs with several independent data cycles (grouped in the harness by SCC of the data edges): one listed entry point per cycle is supplied (every combination) and each cycle in turn is left without any of its seeds.'
 )
 ASSUMPTIONS = [
     "the Graph's own report is the claim under test; the run is the judge",
